@@ -290,6 +290,10 @@ class Builder:
             from .sym import PList
 
             return PList([self.reflect_value(x, interp) for x in v])
+        if isinstance(v, dict):
+            from .sym import PDict
+
+            return PDict({k: self.reflect_value(x, interp) for k, x in v.items()})
         if type(v).__name__ == "EventWrapper":
             return SObj(class_of("hypercorn.typing:Event"), {"flag": v.is_set(), "g_sticky": False})
         import enum
@@ -304,6 +308,8 @@ class Builder:
                 if hasattr(v, f):
                     o.fields[f] = self.reflect_value(getattr(v, f), interp)
             return o
+        if type(v).__module__ in ("_io", "io") or v is sys.stdout:
+            return v  # file-like objects of a result: kept as they are (clauses do not look inside)
         raise CannotReplay(f"cannot mirror {type(v)}")
 
 
